@@ -98,7 +98,8 @@ Record ss_alloc := {
   al_cp : option Z;                  (* challenge pool node: balance *)
   al_bas : list ss_balloc;
   al_ocs : list ss_oc;               (* AllocationChallenges.OpenChallenges *)
-  al_chnode : bool                   (* the AllocationChallenges node exists *)
+  al_chnode : bool;                  (* the AllocationChallenges node exists *)
+  al_tu : Z                          (* storageAllocation.TimeUnit in ns: conf.TimeUnit when the allocation was created *)
 }.
 
 Record ss_blobber := {
@@ -161,13 +162,13 @@ Definition al_with_pools (a : ss_alloc) (wpool mtc mb mtv : Z) (cp : option Z) (
      al_data := al_data a; al_parity := al_parity a; al_wpool := wpool; al_mtc := mtc; al_mb := mb; al_mtv := mtv;
      al_tpe := al_tpe a; al_ent := al_ent a; al_used := al_used a; al_tot := al_tot a; al_open := al_open a;
      al_succ := al_succ a; al_fail := al_fail a; al_rr := al_rr a; al_wr := al_wr a; al_cp := cp; al_bas := bas;
-     al_ocs := al_ocs a; al_chnode := al_chnode a |}.
+     al_ocs := al_ocs a; al_chnode := al_chnode a; al_tu := al_tu a |}.
 Definition al_with_stats (a : ss_alloc) (used tot open succ fail : Z) (ocs : list ss_oc) (chnode : bool) : ss_alloc :=
   {| al_id := al_id a; al_owner := al_owner a; al_start := al_start a; al_exp := al_exp a; al_size := al_size a;
      al_data := al_data a; al_parity := al_parity a; al_wpool := al_wpool a; al_mtc := al_mtc a; al_mb := al_mb a; al_mtv := al_mtv a;
      al_tpe := al_tpe a; al_ent := al_ent a; al_used := used; al_tot := tot; al_open := open;
      al_succ := succ; al_fail := fail; al_rr := al_rr a; al_wr := al_wr a; al_cp := al_cp a; al_bas := al_bas a;
-     al_ocs := ocs; al_chnode := chnode |}.
+     al_ocs := ocs; al_chnode := chnode; al_tu := al_tu a |}.
 Definition al_with_bas (a : ss_alloc) (bas : list ss_balloc) : ss_alloc :=
   al_with_pools a (al_wpool a) (al_mtc a) (al_mb a) (al_mtv a) (al_cp a) bas.
 Definition al_with_head (a : ss_alloc) (owner exp size parity : Z) (tpe : bool) : ss_alloc :=
@@ -175,7 +176,7 @@ Definition al_with_head (a : ss_alloc) (owner exp size parity : Z) (tpe : bool) 
      al_data := al_data a; al_parity := parity; al_wpool := al_wpool a; al_mtc := al_mtc a; al_mb := al_mb a; al_mtv := al_mtv a;
      al_tpe := tpe; al_ent := al_ent a; al_used := al_used a; al_tot := al_tot a; al_open := al_open a;
      al_succ := al_succ a; al_fail := al_fail a; al_rr := al_rr a; al_wr := al_wr a; al_cp := al_cp a; al_bas := al_bas a;
-     al_ocs := al_ocs a; al_chnode := al_chnode a |}.
+     al_ocs := al_ocs a; al_chnode := al_chnode a; al_tu := al_tu a |}.
 
 Definition bl_with_sp (b : ss_blobber) (pools : list Z) (offers : Z) (spkilled : bool) (rewards : Z) : ss_blobber :=
   {| bl_id := bl_id b; bl_cap := bl_cap b; bl_allocd := bl_allocd b; bl_saved := bl_saved b; bl_killed := bl_killed b;
@@ -475,7 +476,7 @@ Definition ss_new_alloc (c : ss_conf) (s : ss_state) (now id owner payer value t
   let a := {| al_id := id; al_owner := owner; al_start := now; al_exp := now + ss_tu_sec c; al_size := size;
               al_data := data; al_parity := parity; al_wpool := value; al_mtc := 0; al_mb := 0; al_mtv := 0;
               al_tpe := tpe; al_ent := false; al_used := 0; al_tot := 0; al_open := 0; al_succ := 0; al_fail := 0;
-              al_rr := rr; al_wr := wr; al_cp := Some 0; al_bas := bas; al_ocs := []; al_chnode := false |} in
+              al_rr := rr; al_wr := wr; al_cp := Some 0; al_bas := bas; al_ocs := []; al_chnode := false; al_tu := cf_tu_ns c |} in
   Some (st_with_allocs (st_with_blobbers s1 all) (st_allocs s1 ++ [a])).
 
 (* writePoolLock *)
@@ -1000,7 +1001,11 @@ Definition ss_extend (c : ss_conf) (s : ss_state) (now : Z) (a : ss_alloc) (req_
 (* requiredTokensForUpdateAllocation *)
 Definition ss_required_lock (c : ss_conf) (a : ss_alloc) (cpbal : Z) (extend : bool) (now : Z) : option Z :=
   cost <- (if extend then ss_cost (al_bas a)
-           else rdtu <- ss_rest_tu c a now ;; ss_cost_rdtu (al_bas a) rdtu) ;;
+           else
+             (* costForRDTU measures the rest of the period in the allocation's own time unit *)
+             rdtu <- (if al_exp a <? now then None
+                      else Some (f64_div (f64_of_Z ((al_exp a - now) * 1000000000)) (f64_of_Z (al_tu a)))) ;;
+             ss_cost_rdtu (al_bas a) rdtu) ;;
   let total := ss_wrap (al_wpool a + cpbal) in
   Some (if total <? cost then cost - total else 0).
 
@@ -1263,7 +1268,7 @@ Definition al_with_ent (a : ss_alloc) (e : bool) : ss_alloc :=
      al_data := al_data a; al_parity := al_parity a; al_wpool := al_wpool a; al_mtc := al_mtc a; al_mb := al_mb a; al_mtv := al_mtv a;
      al_tpe := al_tpe a; al_ent := e; al_used := al_used a; al_tot := al_tot a; al_open := al_open a;
      al_succ := al_succ a; al_fail := al_fail a; al_rr := al_rr a; al_wr := al_wr a; al_cp := al_cp a; al_bas := al_bas a;
-     al_ocs := al_ocs a; al_chnode := al_chnode a |}.
+     al_ocs := al_ocs a; al_chnode := al_chnode a; al_tu := al_tu a |}.
 
 (* usedDurationInTimeunit for an allocation that has not expired: 1 - unused / time_unit *)
 Definition ss_used_dur (c : ss_conf) (a : ss_alloc) (now : Z) : f64 :=
@@ -1395,9 +1400,25 @@ Definition ss_step_w (c : ss_conf) (s : ss_state) (t : Z * Z * ss_op) : ss_state
   let '(now, round, o) := t in
   match ss_apply_w c s now round o with Some s' => (s', true) | None => (s, false) end.
 
-Fixpoint ss_run_w (c : ss_conf) (s : ss_state) (ts : list (Z * Z * ss_op)) : ss_state * list bool :=
-  match ts with
-  | [] => (s, [])
-  | t :: tl => let '(s1, ok) := ss_step_w c s t in let '(s2, oks) := ss_run_w c s1 tl in (s2, ok :: oks)
-  end.
+(* The configuration can change between transactions: update_settings / commit_settings_changes of
+   storagesc.time_unit.  The settings transactions themselves are not modelled; their effect - the
+   time unit found in the stored configuration afterwards - is an event of the history. *)
+Definition cf_with_tu (c : ss_conf) (tu : Z) : ss_conf :=
+  {| cf_tu_ns := tu; cf_vr := cf_vr c; cf_slash := cf_slash c; cf_cancel := cf_cancel c; cf_kill_slash := cf_kill_slash c;
+     cf_max_wp := cf_max_wp c; cf_min_wp := cf_min_wp c; cf_max_rp := cf_max_rp c; cf_min_alloc := cf_min_alloc c;
+     cf_min_blobber_cap := cf_min_blobber_cap c; cf_mccr := cf_mccr c; cf_min_lock_w := cf_min_lock_w c; cf_min_lock_r := cf_min_lock_r c;
+     cf_nvr := cf_nvr c; cf_free_data := cf_free_data c; cf_free_parity := cf_free_parity c; cf_free_size := cf_free_size c;
+     cf_free_frac := cf_free_frac c; cf_free_max_wp := cf_free_max_wp c; cf_free_max_rp := cf_free_max_rp c;
+     cf_max_indiv_free := cf_max_indiv_free c; cf_max_total_free := cf_max_total_free c; cf_owner := cf_owner c; cf_sc := cf_sc c;
+     cf_electra := cf_electra c; cf_demeter := cf_demeter c; cf_ent := cf_ent c |}.
 
+Inductive ss_ev :=
+| EvTxn (t : Z * Z * ss_op)
+| EvTimeUnit (tu_ns : Z).
+
+Fixpoint ss_run_w (c : ss_conf) (s : ss_state) (evs : list ss_ev) : ss_state * list bool :=
+  match evs with
+  | [] => (s, [])
+  | EvTxn t :: tl => let '(s1, ok) := ss_step_w c s t in let '(s2, oks) := ss_run_w c s1 tl in (s2, ok :: oks)
+  | EvTimeUnit tu :: tl => let '(s2, oks) := ss_run_w (cf_with_tu c tu) s tl in (s2, true :: oks)
+  end.
